@@ -198,6 +198,11 @@ def view_op(fam, v, f):
             return v.update(list(f[1])), None
         if n == "clear":
             return v.clear(), None
+        if n == "selfupdate":  # the argument aliases the set: a no-op on members and header
+            before = list(v)
+            # (not claimed on a view whose list and lookup set already diverge: the F08b state)
+            sane = not set_diverged(v)
+            return v.update(v), ((lambda: list(v), before) if sane else None)
         if n == "delitem":
             del v[f[1]]
             return None, None
@@ -255,6 +260,10 @@ def view_op(fam, v, f):
         if n == "params":
             v.parameters = {k: x for k, x in f[1]}
             return None, (lambda: dict(v.parameters), {k: x for k, x in f[1]})
+        if n == "selfparams":  # assigning the view's own current dict object: a no-op on the content
+            before = dict(v.parameters)
+            v.parameters = v.parameters
+            return None, (lambda: dict(v.parameters), before)
         if n == "setitem":
             v[f[1]] = f[2]
             return None, (lambda: v[f[1]], f[2])
@@ -281,8 +290,8 @@ def e_view_op(fam, f):
             return f"{n},{hs(f[1])}"
         if n == "update":
             return "update," + e_atoms(f[1])
-        if n == "clear":
-            return "clear"
+        if n in ("clear", "selfupdate"):
+            return n
         if n == "delitem":
             return f"delitem,{f[1]}"
         if n == "setitem":
@@ -316,6 +325,8 @@ def e_view_op(fam, f):
             return "token," + e_opt(f[1])
         if n == "params":
             return "params," + e_okv(f[1])
+        if n == "selfparams":
+            return "selfparams"
         if n in ("setitem", "setattr"):
             return f"{n},{hs(f[1])},{e_opt(f[2])}"
         if n in ("delitem", "delattr"):
@@ -340,7 +351,7 @@ class ViewsStream(Stream):
     _verdicts: dict = {}
 
     # ----- alphabets
-    SETV = [["v", "add", "a"], ["v", "add", "A"], ["v", "add", "b c"], ["v", "remove", "A"], ["v", "remove", "b c"], ["v", "discard", "a"], ["v", "discard", "zz"], ["v", "update", ["b c", "d"]], ["v", "update", []], ["v", "update", ["e", "E", "a", "e"]], ["v", "discard", "E"], ["v", "clear"], ["v", "delitem", 0], ["v", "delitem", -1], ["v", "setitem", 0, "n"], ["v", "setitem", 0, "a"], ["v", "setitem", -1, "A"]]
+    SETV = [["v", "add", "a"], ["v", "add", "A"], ["v", "add", "b c"], ["v", "remove", "A"], ["v", "remove", "b c"], ["v", "discard", "a"], ["v", "discard", "zz"], ["v", "update", ["b c", "d"]], ["v", "update", []], ["v", "update", ["e", "E", "a", "e"]], ["v", "discard", "E"], ["v", "selfupdate"], ["v", "clear"], ["v", "delitem", 0], ["v", "delitem", -1], ["v", "setitem", 0, "n"], ["v", "setitem", 0, "a"], ["v", "setitem", -1, "A"]]
     SETX = [
         ["f"],
         ["as", "none"],
@@ -433,6 +444,7 @@ class ViewsStream(Stream):
         ["v", "token", None],
         ["v", "params", [["realm", "r x"], ["nonce", "n"]]],
         ["v", "params", []],
+        ["v", "selfparams"],
         ["v", "setitem", "realm", "app"],
         ["v", "setitem", "realm", None],
         ["v", "setattr", "realm", "r2"],
@@ -479,6 +491,10 @@ class ViewsStream(Stream):
         "mp": (["Content-Type"], MPV, MPX, [[], [["Content-Type", "text/html; charset=utf-8"]], [["content-type", "multipart/form-data; boundary=\"x y\"; a=b"]]]),
     }
     corpus = [
+        # aliasing: the assigned value is the view's own current state object
+        {"fam": "auth", "prop": "WWW-Authenticate", "init": [["WWW-Authenticate", "Digest realm=\"r\", nonce=\"n\", charset=x"]], "ops": [["v", "selfparams"]]},
+        {"fam": "auth", "prop": "WWW-Authenticate", "init": [["WWW-Authenticate", "Basic realm=\"x\", charset=UTF-8"]], "ops": [["v", "p", "pop", "charset", "!"], ["v", "selfparams"]]},
+        {"fam": "set", "prop": "Vary", "init": [["Vary", "Cookie, Accept"]], "ops": [["v", "selfupdate"]]},
         # F08a / C16 regression (repaired by bc9f56a): removing a Vary entry with another letter case
         {"fam": "set", "prop": "Vary", "init": [["Vary", "Cookie"]], "ops": [["v", "remove", "cookie"]]},
         {"fam": "set", "prop": "Vary", "init": [["Vary", "Cookie, Accept"]], "ops": [["v", "remove", "Cookie"], ["v", "add", "cookie"]]},
@@ -715,7 +731,8 @@ class ViewsStream(Stream):
         problems = self._verdicts.get(key, [])
         if not problems:
             return None
-        i, note, what = problems[0]
+        # a problem that has not the shape of a known finding is reported before any that has
+        i, note, what = next((p for p in problems if not p[1]), problems[0])
         pre = (note + ": ") if note else ""
         return pre + f"step {i}: {what}"
 
@@ -826,7 +843,7 @@ class SharedViewsStream(Stream):
         "cc": [["attr", "max_age", "i5"], ["attr", "no_store", "t"], ["delattr", "max_age"], ["clear"]],
         "csp": [["attr", "default_src", "'self'"], ["setitem", "img-src", "*"], ["delattr", "default_src"], ["clear"]],
         "cr": [["set", 0, 10, 100, "bytes"], ["length", 50], ["unset"], ["set", None, None, 0, "bytes"]],
-        "auth": [["setitem", "realm", "two"], ["type", "Bearer"], ["token", "abc=="], ["params", [["realm", "r3"]]], ["delitem", "realm"], ["token", None]],
+        "auth": [["setitem", "realm", "two"], ["type", "Bearer"], ["token", "abc=="], ["params", [["realm", "r3"]]], ["delitem", "realm"], ["token", None], ["selfparams"]],
         "mp": [["setitem", "charset", "utf-8"], ["delitem", "charset"], ["update", [["a", "1"]]], ["clear"]],
     }
     EDITS = {
@@ -1042,7 +1059,7 @@ class SharedViewsStream(Stream):
         problems = self._verdicts.get(key, [])
         if not problems:
             return None
-        i, note, what = problems[0]
+        i, note, what = next((p for p in problems if not p[1]), problems[0])
         return ((note + ": ") if note else "") + f"step {i}: {what}"
 
     def finding_key(self, case, what):
